@@ -17,7 +17,7 @@ RULE = ('cases = (program, recording inputs, history of <= 6 (quick) / 15 (thoro
         'non-trivial = history has >= 3 calls including a pullback that is not the first call after its pushforward; distinct by hash')
 ASSUMPTIONS = ['expected results come from a fresh recording of the same program (its correctness is C03/C04/C05)', 'tolerance 1e-10 relative']
 
-KINDS = ['ew', 'ew', 'bin', 'bin', 'binc', 'getitem', 'sum', 'dot', 'prod', 'buffer', 'buffer', 'reshape', 'transpose', 'outer', 'fftfilter']
+KINDS = ['ew', 'ew', 'bin', 'bin', 'binc', 'getitem', 'sum', 'dot', 'prod', 'buffer', 'buffer', 'reshape', 'transpose', 'outer', 'fftfilter', 'tri', 'cplxparts', 'setarr', 'realalias']
 
 
 def make_case(rng, tier):
@@ -26,8 +26,8 @@ def make_case(rng, tier):
     # make tan appear often: it is a kernel with two outputs sharing work arrays
     if rng.random() < 0.3:
         prog['steps'].append({'op': 'binc', 'fn': 'mul', 'a': prog['out'], 'c': 0.01, 'side': 'r'})
-        prog['steps'].append({'op': 'ew', 'fn': 'tan', 'a': prog['out'] + 1})
-        prog['out'] += 2
+        prog['steps'].append({'op': 'ew', 'fn': 'tan', 'a': programs.nvars(prog) - 1})
+        prog['out'] = programs.nvars(prog) - 1
     L = rng.randint(2, 6 if tier == 'quick' else 15)
     hist = []
     for _ in range(L):
